@@ -442,9 +442,9 @@ def check_parameter_aliasing(fx, R, cq, cname):
                                 overwritten.setdefault(m_, stm)
             inst = '%s::%s:%s' % (cname, name + ('(%d args)' % len(f['params'])), p_['name'])
             if bad:
-                R.violated('Y6', '%s::%s:parameter-aliasing:%s' % (cname.split('<')[0], name, p_['name']), '`%s` is taken by const reference and read (in `%s`) after `%s` has given the stored point %s another '
-                           'value; %s() hands that member out by const reference, so a caller passing `caster.%s()` as `%s` - a ray from a new point back to / onwards from the stored one - has its argument '
-                           'changed under it before it is used: the cast is not that of the two points passed (a fresh caster given the same two points answers differently) [%s]' % (
+                R.violated('Y6', '%s::%s:parameter-aliasing:%s' % (cname.split('<')[0], name, p_['name']), '`%s` is taken by const reference and read (in `%s`) after `%s` has given the stored member %s another '
+                           'value; %s() hands that member out by const reference, so a caller passing `caster.%s()` as `%s` (for the ray caster: a ray from a new point back to / onwards from the stored one) has its '
+                           'argument changed under it before it is used: the result is not that of the arguments passed (a fresh object given the same arguments answers differently) [%s]' % (
                                p_['name'], pp(bad[2].get('e') or bad[2])[:70], pp(bad[1].get('e') or bad[1])[:70], bad[0], exposed[bad[0]][0], exposed[bad[0]][0], p_['name'], cname), fx.rel(f['loc']), 'E-STATE')
             else:
                 R.holds('Y6', inst, 'not read after a stored point it may alias (%s) is given another value' % ', '.join(sorted(cands)), fx.rel(f['loc']), 'E-STATE')
